@@ -214,6 +214,64 @@ def parallax_case(arg):
     return out
 
 
+AB_VAL = {"C10": {0: 0.0, 1: 150.0, 2: -80.0}, "C12": {0: 0.0, 1: 60.0, 2: 35.0}}
+ROT_VAL = {0: 0.0, 1: 17.0}
+
+
+def hyper_case(arg):
+    """HyperState.tla: reconstruct(override...) on an object built with `initial` equals a fresh object built with
+    the effective hyper-parameters; a call leaves the stored layers alone."""
+    case, idx = arg
+    warnings.filterwarnings("ignore")
+    out = []
+    ini = case["initial"] if isinstance(case["initial"], dict) else {}
+    ovr = case["ovr"] if isinstance(case["ovr"], dict) else {}
+    eff = case["eff"]
+    tag = f"initial={ini} rot0={case['rot0']} override={ovr} rot_override={case['rovr']}"
+    sx, sy = [(7, 8), (6, 5)][idx % 2]
+    rng = np.random.default_rng(7 + idx % 5)
+    v1 = rng.integers(0, 9, size=(9, sx, sy)).astype(np.float32)
+    ds = (10.0, 12.0)
+    kern = ["prlx", "ssb", "obf"][idx % 3]
+    kw = dict(deconvolution_kernel=kern, upsampling_factor=1 + idx % 2, verbose=0, max_batch_size=[None, 4][idx % 2])
+    if kern == "prlx":
+        kw["parallax_flip_phase"] = False
+
+    def ab_of(layer, explicit_zero=True):
+        d = {k: AB_VAL[k][int(v)] for k, v in layer.items() if explicit_zero or int(v) != 0}
+        d["phi12"] = 0.4
+        return d
+    try:
+        with contextlib.redirect_stdout(io.StringIO()):
+            a, _ = make(v1, ds, ab_of(ini), ROT_VAL.get(case["rot0"], 0.0))
+            # an unrelated first call with another override (the model's first Reconstruct step)
+            a.reconstruct(override_aberration_coefs={"C10": 33.0}, override_rotation_angle=5.0, **kw)
+            okw = {}
+            if ovr or idx % 2:
+                okw["override_aberration_coefs"] = {k: AB_VAL[k][int(v)] for k, v in ovr.items()}
+            if case["rovr"] != -1:
+                okw["override_rotation_angle"] = ROT_VAL[case["rovr"]]
+            ra = a.reconstruct(**okw, **kw).corrected_stack.clone()
+            b, _ = make(v1, ds, ab_of(eff, explicit_zero=bool(idx % 2)), ROT_VAL.get(case["effrot"], 0.0))
+            rb = b.reconstruct(**kw).corrected_stack.clone()
+            scale = float(rb.abs().max())
+            if ra.shape != rb.shape or float((ra - rb).abs().max()) > 2e-5 * max(scale, 1e-30):
+                zero = sorted(k for k, v in ovr.items() if int(v) == 0)
+                out.append((f"C04:hyper:override{':explicit-zero' if zero else ''}", f"{tag} kernel={kern}: reconstruct with the override differs "
+                            f"from a fresh object built with the effective values {eff}/{case['effrot']} by "
+                            f"{float((ra - rb).abs().max()):.3g} (scale {scale:.3g})"))
+            # the stored layers are untouched: the next call without override sees the construction values
+            rc = a.reconstruct(**kw).corrected_stack.clone()
+            c, _ = make(v1, ds, ab_of(ini), ROT_VAL.get(case["rot0"], 0.0))
+            rd = c.reconstruct(**kw).corrected_stack.clone()
+            if float((rc - rd).abs().max()) > 2e-5 * max(float(rd.abs().max()), 1e-30):
+                out.append(("C04:hyper:call-changed-state", f"{tag} kernel={kern}: after calls with overrides, a call without "
+                            f"override differs from a fresh object by {float((rc - rd).abs().max()):.3g}"))
+    except Exception as ex:  # noqa: BLE001
+        out.append(("C04:hyper:raised", f"{tag}: {type(ex).__name__}: {str(ex)[:200]}"))
+    return out
+
+
 def check(rep, tier, seed):
     quick = tier == "quick"
     rep.assume("nine bright-field pixels on a 6x6 corner-centred detector grid; scan sampling chosen so the "
@@ -269,10 +327,33 @@ def check(rep, tier, seed):
         rep.add_distinct(["parallax", c["vbf"], c["m"]])
         for key, msg in probs:
             rep.mismatch(key, msg, {"parallax_case": c, "message": msg})
+    # hyper-parameter layers (HyperState.tla)
+    rh = tlc.run_tlc("HyperState", "HyperMC.cfg", spec_dir=SPEC, workers=8, timeout=900)
+    rep.add_tlc(rh, "HyperState: OverrideWins / RestFromBelow / RotationLayers / CallsArePure")
+    tlc.expect_clean(rh, "HyperMC")
+    rhn = tlc.run_tlc("HyperState", "HyperNEG.cfg", spec_dir=SPEC, workers=8, timeout=900)
+    tlc.expect_violation(rhn, "HyperNEG (falsy override values dropped)", "OverrideWins")
+    rhg = tlc.run_tlc("HyperState", "HyperGEN.cfg", spec_dir=SPEC, workers=1, timeout=900)
+    tlc.expect_clean(rhg, "HyperGEN")
+    hcases = rhg.cases
+    if not hcases:
+        raise MachineryError("no hyper-parameter cases exported")
+    random.Random(seed).shuffle(hcases)
+    hcases = hcases[: (160 if quick else 2304)]
+    rep.note("hyper_cases", len(hcases))
+    res = pmap(hyper_case, [(c, i) for i, c in enumerate(hcases)], procs=16, chunk=8)
+    for c, probs in zip(hcases, res):
+        rep.add_traces(1)
+        rep.add_eval(4)
+        rep.add_distinct(["hyper", c["initial"], c["rot0"], c["ovr"], c["rovr"]])
+        for key, msg in probs:
+            rep.mismatch(key, msg, {"hyper_case": c, "message": msg})
     rule = ("stream jobs: scan shape x kernel x upsampling (1..3) with aberration/rotation/filter variants, each "
             "run for every batch size 1..9 (and > num_bf), aliases, a repeated call, linearity on two integer "
             "stacks, and recombination over sampled 2-block partitions of the 9-pixel mask; parallax cases: "
-            "integer stacks and rolled images computed by TLC; distinct by job / case")
+            "integer stacks and rolled images computed by TLC; hyper-parameter cases: (construction layer, override "
+            "layer) pairs of HyperState.tla incl. explicit zeros, each compared with a fresh object built with the "
+            "effective values; distinct by job / case")
     return rule, False
 
 
@@ -282,6 +363,8 @@ def replay(path):
     if "job" in rp:
         j = rp["job"]
         out = stream_case((tuple(j["scan"]), j["kernel"], j["up"], j["variant"], False))
+    elif "hyper_case" in rp:
+        out = hyper_case((rp["hyper_case"], 0)) + hyper_case((rp["hyper_case"], 1)) + hyper_case((rp["hyper_case"], 2))
     else:
         out = parallax_case((rp["parallax_case"], 0))
     for o in out:
